@@ -308,6 +308,7 @@ func runC03(p *an.Prog, r *an.Run, tier string) {
 	r.Analysed(an.FuncName(onClient), an.FuncName(onUpdate))
 	checkMinBalanceWiring(p, r)
 	checkBalanceReadErrors(p, r)
+	checkMinImmutable(p, r)
 	// every function constructing a LowBalanceError must be one of the two anchors
 	n := 0
 	updDebit := func() ssa.CallInstruction {
@@ -619,6 +620,47 @@ func runC02(p *an.Prog, r *an.Run, tier string) {
 			if peersPrm != nil && da.HasParam(peersPrm) {
 				ok, why = false, "intervalCredit's argument derives from a peer (a peer's LastSeen would bill the wrong time span)"
 			}
+			// ... as received: nothing but the parameter itself is ever written into the record's LastSeen before the
+			// call (a clamped or defaulted LastSeen changes the elapsed time that is billed), and nothing but the
+			// clock and that LastSeen enters the argument
+			if node != nil {
+				an.AllInstrs(onUpdate, func(in ssa.Instruction) {
+					st, isSt := in.(*ssa.Store)
+					if !isSt {
+						return
+					}
+					root, _ := an.RootPath(st.Addr)
+					al, isAl := root.(*ssa.Alloc)
+					if !isAl {
+						return
+					}
+					isSpill := false
+					for _, ref := range *al.Referrers() {
+						if s0, ok2 := ref.(*ssa.Store); ok2 && s0.Addr == ssa.Value(al) && s0.Val == ssa.Value(node) {
+							isSpill = true
+							if s0 == st {
+								return
+							}
+						}
+					}
+					if !isSpill {
+						return
+					}
+					if fv := an.FieldOf(st.Addr); fv != nil && fv.Name() != "LastSeen" {
+						return
+					}
+					if st.Block() == icCall.Block() || an.ReachFrom([]*ssa.BasicBlock{st.Block()}, nil)[icCall.Block()] {
+						ok, why = false, "the paying node's LastSeen is rewritten at "+p.Pos(st.Pos())+" before the charge is computed from it"
+					}
+				})
+				for _, nd := range da.Nodes {
+					if c, isCall := nd.(*ssa.Call); isCall && c != icCall {
+						if f := an.CallObj(c); f != nil && !an.IsFunc(f, "time", "Now") {
+							ok, why = false, "intervalCredit's argument passes through "+an.ObjString(f)
+						}
+					}
+				}
+			}
 			for _, n := range d.Nodes {
 				if c, isCall := n.(*ssa.Call); isCall && an.IsBigIntMethod(c) && c != icCall {
 					ok, why = false, "the credited amount is further transformed by "+an.ObjString(an.CallObj(c))
@@ -838,6 +880,9 @@ func runC02(p *an.Prog, r *an.Run, tier string) {
 		r.Floor("setnode-callers", n, 1)
 		r.Check(len(bad) == 0, "lastseen-writers", "pool", token.NoPos, "node records are only written with LastSeen = now outside the drivers", "%s", strings.Join(dedup(bad), "; "))
 	}
+
+	// ledger-writers (shared with C01): the credits and the debit of an update go through the contract's ledger methods
+	checkLedgerWriterMethods(p, r)
 
 	// lastseen-written
 	drivers := p.Implementations(p.Iface("pool/store", "Store"))
@@ -1301,7 +1346,20 @@ func checkSetNodeStoresParam(p *an.Prog, r *an.Run, d *types.Named, m *ssa.Funct
 					return
 				}
 				if fv := an.FieldOf(st.Addr); fv != nil && fv.Name() == "LastSeen" {
-					bad = append(bad, "the stored record's LastSeen is overwritten ("+p.Pos(st.Pos())+"): a re-registration (connect) would not restart the billing clock and the first keep-alive after it bills the offline gap")
+					fromPrm := false
+					if ld, ok := st.Val.(*ssa.UnOp); ok && ld.Op == token.MUL {
+						if f2 := an.FieldOf(ld.X); f2 != nil && f2.Name() == "LastSeen" {
+							if r0, _ := an.RootPath(ld.X); an.Unspill(&ssa.UnOp{Op: token.MUL, X: r0}) == ssa.Value(prm) || r0 == ssa.Value(prm) {
+								fromPrm = true
+							}
+						}
+					}
+					if fl, ok := st.Val.(*ssa.Field); ok && isParamVal(fl.X) {
+						fromPrm = true
+					}
+					if !fromPrm {
+						bad = append(bad, "the stored record's LastSeen is overwritten ("+p.Pos(st.Pos())+"): a re-registration (connect) would not restart the billing clock and the first keep-alive after it bills the offline gap")
+					}
 				}
 			})
 		}
@@ -1358,9 +1416,14 @@ func checkMinBalanceWiring(p *an.Prog, r *an.Run) {
 					continue
 				}
 				if rel, ok := an.NormCond(c.If.Cond); ok && rel.Kind == "string" && (rel.Op == token.EQL || rel.Op == token.NEQ) {
-					ls, lok := an.ConstString(rel.L)
-					rs, rok := an.ConstString(rel.R)
-					if (lok && ls == "off") || (rok && rs == "off") {
+					// a spelled-out value of the option itself ("off", "", "none"): the operator switching the rule off
+					_, lok := an.ConstString(rel.L)
+					_, rok := an.ConstString(rel.R)
+					other := rel.L
+					if lok {
+						other = rel.R
+					}
+					if lok != rok && isMinBalanceOption(p, other) {
 						continue
 					}
 				}
@@ -1506,4 +1569,57 @@ func isMinBalanceHelper(p *an.Prog, fn *ssa.Function, anchors ...*ssa.Function) 
 		}
 	}
 	return true
+}
+
+// isMinBalanceOption: v is the min-balance option string itself (a load of a string field named MinBalance).
+func isMinBalanceOption(p *an.Prog, v ssa.Value) bool {
+	for _, nd := range p.Derives(0, v).Nodes {
+		if f := an.FieldOf(nd); f != nil && f.Name() == "MinBalance" {
+			if b, ok := f.Type().Underlying().(*types.Basic); ok && b.Info()&types.IsString != 0 {
+				return true
+			}
+		}
+	}
+	return false
+}
+
+// checkMinImmutable: the configured minimum is a *big.Int shared by the manager and by every LowBalanceError it hands
+// out; "exactly when below the minimum" presupposes that nothing computes in place on it (big.Int methods store their
+// result in the receiver).
+func checkMinImmutable(p *an.Prog, r *an.Run) {
+	var bad []string
+	n := 0
+	for _, fn := range p.Repo {
+		if p.IsTestFunc(fn) || isTestDoublePkg(fn) {
+			continue
+		}
+		for _, c := range an.Calls(fn, false) {
+			if !an.IsBigIntMutator(c) || len(c.Common().Args) == 0 {
+				continue
+			}
+			n++
+			recv := c.Common().Args[0]
+			// the receiver pointer itself is a load of a MinBalance field (not a fresh value derived from it)
+			v := recv
+			for {
+				if ph, ok := v.(*ssa.Phi); ok && len(ph.Edges) > 0 {
+					v = ph.Edges[0]
+					continue
+				}
+				break
+			}
+			if ld, ok := v.(*ssa.UnOp); ok && ld.Op == token.MUL {
+				if fv := an.FieldOf(ld.X); fv != nil && (fv.Name() == "MinBalance" || fv.Name() == "WithdrawMin") {
+					bad = append(bad, an.ObjString(an.CallObj(c))+" in "+an.FuncName(fn)+" at "+p.Pos(c.Pos())+" stores its result in the shared "+fv.Name()+" value: the configured minimum changes for every client judged afterwards")
+				}
+			}
+			if fl, ok := v.(*ssa.Field); ok {
+				if fv := an.FieldOf(fl); fv != nil && (fv.Name() == "MinBalance" || fv.Name() == "WithdrawMin") {
+					bad = append(bad, an.ObjString(an.CallObj(c))+" in "+an.FuncName(fn)+" at "+p.Pos(c.Pos())+" stores its result in the shared "+fv.Name()+" value: the configured minimum changes for every client judged afterwards")
+				}
+			}
+		}
+	}
+	r.Floor("bigint-mutator-calls", n, 10)
+	r.Check(len(bad) == 0, "min-immutable", "repo", token.NoPos, "nothing computes in place on the configured minimum", "%s", strings.Join(dedup(bad), "; "))
 }
